@@ -35,12 +35,25 @@ type login struct {
 }
 
 // c06Login obtains one login redirect through the shipped entry point and returns its values.
+// c06Headers are sent with every login request of a case when set: whatever else a request carries (Envoy's
+// request id, forwarding headers, the user agent) is chosen by the client or visible to intermediaries.
+var c06Headers map[string]string
+
 func c06Login(w *sim.World, cookie ...string) login {
 	var l login
 	req := sim.Req{Scheme: "https", Host: w.AppHost, Path: "/app"}
+	if len(c06Headers) > 0 {
+		req.Headers = map[string]string{}
+		for k, v := range c06Headers {
+			req.Headers[k] = v
+		}
+	}
 	if len(cookie) > 0 && cookie[0] != "" {
 		// the browser still holds the cookie of an earlier, unfinished login (or one planted by somebody else)
-		req.Headers = map[string]string{"cookie": w.CookieName() + "=" + cookie[0]}
+		if req.Headers == nil {
+			req.Headers = map[string]string{}
+		}
+		req.Headers["cookie"] = w.CookieName() + "=" + cookie[0]
 	}
 	l.t0 = time.Now()
 	r := w.Check(req)
@@ -244,6 +257,12 @@ func c06Derivations(c *sim.Case) {
 	n := 3 + sim.Pick(c, "logins", 6)
 	var ls []login
 	carried := 0
+	if sim.Bool(c, "same-request-attributes") {
+		// every login request of this case looks the same from outside: a replayed x-request-id, one client address
+		c06Headers = map[string]string{"x-request-id": "7f1c0f3e-5b1a-4c55-9d57-0e6f1d2a9b11", "x-forwarded-for": "203.0.113.7", "user-agent": "Mozilla/5.0", "x-b3-traceid": "80f198ee56343ba864fe8b2a57d3eff7"}
+		defer func() { c06Headers = nil }()
+		c.Class("derivations:identical-request-attributes")
+	}
 	for i := 0; i < n; i++ {
 		prev := ""
 		if i > 0 && sim.Bool(c, "carry-cookie") {
